@@ -107,6 +107,13 @@ def run(ctx: core.Ctx) -> int:
                 cases.append({"tid": len(cases) + 1, "files": [{"name": "sample.py", "kind": kind, "style_name": "python", "eol": "\n"}],
                               "steps": [st_, st_],
                               "label": anncases.label(file="sample.py", body=kind, history=[h[0]["b"]["name"]] * 2, flavours=[{"template": tmpl}] * 2)})
+    # a header that names only a contributor, moved into a .license sibling: the contributor stays declared
+    for fname, sname in (("sample.py", "python"), ("sample.c", "c"), ("sample.html", "html")):
+        for h in singles1[:4]:
+            seed = f"{ctx.seed}|conly|{len(cases)}"
+            st_ = anncases.step_of(h[0]["b"], rnd, [fname], {"dot": "force"}, must=True, pick_seed=seed)
+            cases.append({"tid": len(cases) + 1, "files": [{"name": fname, "kind": "conly", "style_name": sname, "eol": "\n"}], "steps": [st_],
+                          "label": anncases.label(file=fname, body="conly", history=[h[0]["b"]["name"]], flavours=[{"dot": "force"}])})
     # a header that names a holder with non-ASCII letters, extended by an ASCII-only request in an interpreter whose locale
     # is not UTF-8: what was declared stays declared (and the file stays UTF-8)
     for fname, sname in (("sample.py", "python"), ("sample.c", "c"), ("sample.html", "html")):
